@@ -208,16 +208,11 @@ func (r *Decoder) producePrefixedName(r0 cursorio.DecodedRune) (*tokenPrefixedNa
 
 PN_LOCAL_DONE:
 
-	if decodedLocal[len(decodedLocal)-1] == '.' {
+	// PN_LOCAL may contain but not end with an unescaped '.': hand trailing ones back ("\\." is an escaped '.' and stays)
+	for len(uncommitted) > 0 && uncommitted[len(uncommitted)-1].Rune == '.' && (len(uncommitted) < 2 || uncommitted[len(uncommitted)-2].Rune != '\\') {
 		r.buf.BacktrackRunes(uncommitted[len(uncommitted)-1])
 		uncommitted = uncommitted[0 : len(uncommitted)-1]
 		decodedLocal = decodedLocal[0 : len(decodedLocal)-1]
-
-		if decodedLocal[len(decodedLocal)-1] == '\\' {
-			r.buf.BacktrackRunes(uncommitted[len(uncommitted)-1])
-			uncommitted = uncommitted[0 : len(uncommitted)-1]
-			decodedLocal = decodedLocal[0 : len(decodedLocal)-1]
-		}
 	}
 
 DONE:
